@@ -85,7 +85,10 @@ def gen_shape(rng, depth, allow_enum=True, weights=None, codec_safe=False):
 ENUM_ATOMS = [0, 1, 4, 7, 2, 5, 8, 31, 32]
 
 def gen_atom(rng): return ('a', rng.choice([0, 1, 2, 3, 5, 7, 11, 100, -4]))
-def gen_seq(rng, setlike, small=False):
+def gen_seq(rng, setlike, small=False, bigmult=False):
+    if bigmult and not setlike and rng.random() < 0.06:      # multiplicities around the 255/256 boundary of the compact count encoding
+        l = [rng.randrange(3)] * rng.choice([254, 255, 256, 257, 300]) + [rng.randrange(6) for _ in range(rng.randint(0, 3))]
+        rng.shuffle(l); return ('q', l)
     n = rng.choice([0, 1, 2, 3, 5] if small else [0, 0, 1, 2, 3, 5, 9, 14, 20])
     if setlike:      # a set has no order: canonical (sorted) form, like maps
         return ('q', sorted(rng.sample(range(30), min(n, 30))))
@@ -108,7 +111,7 @@ def gen_field(rng, f):
     if s == 'R': return gen_val(rng, f.sub)
     if s == 'Q': return ('n',) if rng.random() < 0.4 else ('s', gen_val(rng, f.sub))
     if s == 'L': return gen_seq(rng, False)
-    if s == 'U': return gen_seq(rng, f.c >= 2)
+    if s == 'U': return gen_seq(rng, f.c >= 2, bigmult=True)
     if s == 'M': return gen_fmap(rng)
     if s == 'N':
         ks = sorted(rng.sample(range(9), rng.choice([0, 1, 2, 3, 5])))
@@ -130,6 +133,13 @@ def mutate_field(rng, f, v, mode):
         if s == 'R' and f.sub.kind == 'S': return mutate_val(rng, f.sub, v, 'orderonly')
         return v
     # any
+    if s == 'U' and f.c < 2 and rng.random() < 0.05:        # a multiplicity delta of exactly 255 / 256 / 257
+        l = list(v[1]); x = l[0] if l else 1
+        k = rng.choice([255, 256, 257])
+        if l.count(x) > k and rng.random() < 0.5:
+            for _ in range(k): l.remove(x)
+        else: l += [x] * k
+        return ('q', l)
     if s in ('L', 'U') and rng.random() < 0.7:
         l = list(v[1])
         for _ in range(rng.randint(1, 3)):
